@@ -35,6 +35,13 @@ theorem wrap_u8_id (v : Int) (h1 : 0 ≤ v) (h2 : v < 256) : wrap .u8 v = v := b
     obtain ⟨y, w⟩ := p
     by_cases h : x = y <;> simp [Env.get, Env.set, h, ih]
 
+@[simp] theorem Env.set_set_same (x : String) (v w : Val) (e : Env) : Env.set x w (Env.set x v e) = Env.set x w e := by
+  induction e with
+  | nil => simp [Env.set]
+  | cons p r ih =>
+    obtain ⟨y, u⟩ := p
+    by_cases h : x = y <;> simp [Env.set, h, ih]
+
 theorem Env.get_set_other (x y : String) (v : Val) (e : Env) (h : x ≠ y) : Env.get x (Env.set y v e) = Env.get x e := by
   induction e with
   | nil => simp [Env.get, Env.set, h]
@@ -182,6 +189,18 @@ theorem retK_of_fin1 (σ : State) (l : LV) (f : String) (o : Out) (v : Val) (fl 
     retK σ [l] f o = .normal (({ σ with fld := fl } : State).assign1 l v) := by
   cases o <;> simp_all [Out.fin, retK, assignK, State.assign]
 
+/-- a call with two results -/
+theorem retK_of_fin2 (σ : State) (l1 l2 : LV) (f : String) (o : Out) (v1 v2 : Val) (fl : Env)
+    (h : o.fin = some ([v1, v2], fl)) :
+    retK σ [l1, l2] f o = assignK { σ with fld := fl } [l1, l2] (msg "result arity of" f) [v1, v2] := by
+  cases o <;> simp_all [Out.fin, retK]
+
+/-- a call with at least one result -/
+theorem retK_of_fin (σ : State) (lhs : List LV) (f : String) (o : Out) (v : Val) (vs : List Val) (fl : Env)
+    (h : o.fin = some (v :: vs, fl)) :
+    retK σ lhs f o = assignK { σ with fld := fl } lhs (msg "result arity of" f) (v :: vs) := by
+  cases o <;> simp_all [Out.fin, retK]
+
 /-- running a function from outside -/
 theorem run_of_fin (X : Ctx) (fuel : Nat) (f : String) (fn : Fun) (args : List Val) (fld : Env) (rs : List Val) (fl : Env)
     (hf : X.funs f = some fn) (ha : fn.params.length = args.length)
@@ -320,6 +339,10 @@ variable (X : Ctx) (σ : State)
 @[simp] theorem evalE_un (op : UnOp) (e : Expr) : evalE X σ (.un op e) = (evalE X σ e).bind (evalUn op) := by simp [evalE]
 @[simp] theorem evalE_bin (op : BinOp) (a b : Expr) :
     evalE X σ (.bin op a b) = (evalE X σ a).bind fun va => (evalE X σ b).bind fun vb => evalBin op va vb := by simp [evalE]
+theorem andK_ok_bool (a b : Bool) : andK (.ok (.bool b)) (.bool a) = .ok (.bool (a && b)) := by
+  cases a <;> cases b <;> rfl
+theorem orK_ok_bool (a b : Bool) : orK (.ok (.bool b)) (.bool a) = .ok (.bool (a || b)) := by
+  cases a <;> cases b <;> rfl
 @[simp] theorem evalE_and (a b : Expr) : evalE X σ (.and a b) = (evalE X σ a).bind (andK (evalE X σ b)) := by
   simp only [evalE]; congr
 @[simp] theorem evalE_or (a b : Expr) : evalE X σ (.or a b) = (evalE X σ a).bind (orK (evalE X σ b)) := by
@@ -381,6 +404,17 @@ theorem indexVal_bytes (s : Bytes) (i : Nat) (h : i < s.length) :
   simp [indexVal, h]
 theorem indexVal_list (s : List Val) (i : Nat) (h : i < s.length) : indexVal (.list s) (.int i) = .ok s[i] := by
   simp [indexVal, h]
+/-- fields of a record value (`x.f` on a struct is an index with a literal position) -/
+@[simp] theorem indexVal_rec0 (a : Val) (r : List Val) : indexVal (.list (a :: r)) (.int 0) = .ok a := id rfl
+@[simp] theorem indexVal_rec1 (a b : Val) (r : List Val) : indexVal (.list (a :: b :: r)) (.int 1) = .ok b := id rfl
+@[simp] theorem indexVal_rec2 (a b c : Val) (r : List Val) : indexVal (.list (a :: b :: c :: r)) (.int 2) = .ok c := id rfl
+@[simp] theorem indexVal_rec3 (a b c d : Val) (r : List Val) :
+    indexVal (.list (a :: b :: c :: d :: r)) (.int 3) = .ok d := id rfl
+@[simp] theorem indexVal_rec4 (a b c d e : Val) (r : List Val) :
+    indexVal (.list (a :: b :: c :: d :: e :: r)) (.int 4) = .ok e := id rfl
+@[simp] theorem indexVal_rec5 (a b c d e f : Val) (r : List Val) :
+    indexVal (.list (a :: b :: c :: d :: e :: f :: r)) (.int 5) = .ok f := id rfl
+
 theorem indexVal_bytes_oob (s : Bytes) (i : Int) (h : i < 0 ∨ (s.length : Int) ≤ i) :
     indexVal (.bytes s) (.int i) = .panic .index := by
   simp only [indexVal]
@@ -414,11 +448,26 @@ theorem byte_eq_lit (b : UInt8) (k : Nat) (hk : k < 256) : ((b.toNat : Int) = (k
 @[simp] theorem valEq_bytes (a b : Bytes) : valEq (.bytes a) (.bytes b) = some (a == b) := id rfl
 
 @[simp] theorem matchCase_nil (X : Ctx) (σ : State) (tag : Val) : matchCase X σ tag [] = .ok false := id rfl
+/-- a case of a TAGLESS switch (`switch { case cond: … }`, a switch on `true`): the condition decides -/
+theorem matchCase_true1 (X : Ctx) (σ : State) (e : Expr) (b : Bool) (h : evalE X σ e = .ok (.bool b)) :
+    matchCase X σ (.bool true) [e] = .ok b := by
+  simp only [matchCase, h, Res.bind, valEq]
+  cases b <;> rfl
+
 /-- a case value that is an integer literal (the only kind the whitelisted switches use) -/
 @[simp] theorem matchCase_lit_int (X : Ctx) (σ : State) (a b : Int) (es : List Expr) :
     matchCase X σ (.int a) (.lit (.int b) :: es) = if a = b then .ok true else matchCase X σ (.int a) es := by
   simp only [matchCase, evalE, Res.bind, valEq]
   by_cases h : a = b <;> simp [h]
+
+/-- a case value that is a string literal (`switch path { case "stdout": … }`) -/
+@[simp] theorem matchCase_lit_bytes (X : Ctx) (σ : State) (a b : Bytes) (es : List Expr) :
+    matchCase X σ (.bytes a) (.lit (.bytes b) :: es) = if a = b then .ok true else matchCase X σ (.bytes a) es := by
+  simp only [matchCase, evalE, Res.bind, valEq]
+  by_cases h : a = b
+  · simp [h]
+  · have hb : (a == b) = false := by simpa using h
+    simp [h, hb]
 
 @[simp] theorem callVal_def (X : Ctx) (f : String) (args : List Val) :
     callVal X f args = match builtin f args with
@@ -549,6 +598,14 @@ def Stmt.lpost : Stmt → Stmt
   | _ => .skip
 def Stmt.lbody : Stmt → Stmt
   | .loop _ _ b => b
+  | _ => .skip
+
+/-- the first statement of a sequence / the rest: `s.tl.tl.hd` is the third top-level statement of a generated body -/
+def Stmt.hd : Stmt → Stmt
+  | .seq a _ => a
+  | s => s
+def Stmt.tl : Stmt → Stmt
+  | .seq _ b => b
   | _ => .skip
 
 def Stmt.rbody : Stmt → Stmt
